@@ -839,7 +839,7 @@ pub fn int_vector_add(push_state: &mut PushState, _instruction_cache: &Instructi
                     Some(idx) => idx,
                     None => continue, // Out of bounds
                 };
-                iv[0].values[ofs_idx] += iv[1].values[i];
+                iv[0].values[ofs_idx] = iv[0].values[ofs_idx].wrapping_add(iv[1].values[i]);
             }
             push_state.int_vector_stack.push(iv[0].clone());
         }
@@ -861,7 +861,7 @@ pub fn int_vector_subtract(push_state: &mut PushState, _instruction_cache: &Inst
                     Some(idx) => idx,
                     None => continue, // Out of bounds
                 };
-                iv[0].values[ofs_idx] -= iv[1].values[i];
+                iv[0].values[ofs_idx] = iv[0].values[ofs_idx].wrapping_sub(iv[1].values[i]);
             }
             push_state.int_vector_stack.push(iv[0].clone());
         }
@@ -883,7 +883,7 @@ pub fn int_vector_multiply(push_state: &mut PushState, _instruction_cache: &Inst
                     Some(idx) => idx,
                     None => continue, // Out of bounds
                 };
-                iv[0].values[ofs_idx] *= iv[1].values[i];
+                iv[0].values[ofs_idx] = iv[0].values[ofs_idx].wrapping_mul(iv[1].values[i]);
             }
             push_state.int_vector_stack.push(iv[0].clone());
         }
@@ -910,7 +910,7 @@ pub fn int_vector_divide(push_state: &mut PushState, _instruction_cache: &Instru
                 if iv[1].values[i] == 0 {
                     invalid = true;
                 } else {
-                    iv[0].values[ofs_idx] /= iv[1].values[i];
+                    iv[0].values[ofs_idx] = iv[0].values[ofs_idx].wrapping_div(iv[1].values[i]);
                 }
             }
             if !invalid {
